@@ -636,7 +636,7 @@ func aclOwnership(c *eng.Ctx, clause string) {
 	owned := []string{
 		`^call:policy\.\(\*ACLPermissions\)\.Clone#0$`,
 		`^call:github\.\(\*com/armon/go-radix\.Tree\)\.Get#0$`, // already in the ACL's own tree
-		`^other:.*segmentWildcardPaths\[.*\]#0$`,                // already in the ACL's own map
+		`^other:.*segmentWildcardPaths\[.*\]#0$`,               // already in the ACL's own map
 		`^op:.*segmentWildcardPaths`,
 	}
 	n := 0
